@@ -112,6 +112,13 @@ func anyOf(fs ...func(string) bool) func(string) bool {
 	}
 }
 
+// foundation: every property about transactions rests on Query's commit/rollback/release discipline
+// and on a pooled Txn starting clean; the rules are idempotent (an obligation is recorded once).
+func foundation(r *Report) {
+	ruleQueryPaths(r)
+	rulePool(r)
+}
+
 func init() {
 	register(&PropSpec{ID: "C01",
 		Explanation: "Committed values read back exactly — structural part. (C01.arms) arm-effect analysis of the 14 storage Apply loops: per operation type which presence/value/swap effects must and must not occur, same-row addressing, and the read-modify-write shape of Merge; (C01.units) offset-kind analysis: every index into a per-block array/bitmap is block-relative and every offset written to a buffer, whole bitmap, lookup table or cursor is absolute, in all functions of both packages; (U.defs) block arithmetic constants agree; (C01.width) writer/reader/swap byte widths agree per numeric kind; (C01.guard, C01.funnel) point reads are guarded by block existence and the presence bit of the same row; (C01.grow) columns are grown before they are written, including columns created after rows exist; (C03.twopass) every buffer is replayed for the block; (C01.alias) no stored string aliases a pooled buffer; (C01.intern) lossy-hash lookups are validated; (L1) Apply runs under the exclusive latch." + staticNote,
@@ -131,6 +138,7 @@ func init() {
 			ruleL1(r, backfillExempt)
 			// the enum's shared string table is extended atomically with the lookup that missed
 			ruleL7sel(r, func(f string) bool { return f == "column.columnEnum.data" || f == "column.columnEnum.seek" }, false)
+			foundation(r)
 		}})
 	register(&PropSpec{ID: "C02",
 		Explanation: "Atomicity — structural part. (C02.query) path rules over Collection.Query/rollback/commit/reset: error edge ⇒ rollback only, nil edge ⇒ commit only, transaction released, buffers dropped on every exit; (C02.effects) who-may-call over the context graph of the lockset walk: every Apply body and every logger/recorder append is reachable only below Txn.commit (or index back-fill); (C02.isolation) no bit of the shared fill list is set outside commit; (C02.release) failing inserts free their offset and leave no marker, rollback releases the offsets of successful inserts; (C02.readers) no reading API decodes a transaction buffer." + staticNote,
@@ -163,6 +171,7 @@ func init() {
 			ruleReplayOrder(r)
 			ruleCommitOrder(r, true, false)
 			ruleStorageArms(r)
+			foundation(r)
 		}})
 	register(&PropSpec{ID: "C04",
 		Explanation: "Filters, iteration and aggregates — structural part. (C04.ops) which bitmap operation each filter applies to (selection, column) and the missing-column behaviour; (C04.presence) typed filters intersect with presence before the predicate scan, WithValue tests presence, aggregates fold only under selection ∧ presence; (C04.cursor) cursor positioned on the row before its callback; (C04.units) per-block slices indexed by relative offsets, callbacks receive absolute ones; (L3) predicate and fold run under the block latch; (U.defs) block arithmetic and scratch bitmap size." + staticNote,
@@ -178,6 +187,7 @@ func init() {
 			ruleUnits(r, "C04.units", "filters, iteration and aggregates index per-block storage with block-relative offsets and hand absolute offsets to callbacks and the cursor", 12, filterFns)
 			ruleUnitDefs(r)
 			ruleL3f(r, only("(*column.Txn).With", "(*column.Txn).Union", "(*column.Txn).Range", "(column.rdNumber[T])."), 10)
+			foundation(r)
 		}})
 	register(&PropSpec{ID: "C05",
 		Explanation: "Buffer/commit/log round-trip — structural skeleton only (most of this property is about byte values and is not decidable statically). (C05.flags) writers and reader agree on header flags, size tags and payload widths, decided per arm; (C05.varint) writer loop and the reader's five stages agree; (C05.header) block headers written on block change, reader restarts the offset chain from them; (C05.copy) clones and resets cover every field, clones share no slice; (C01.width) Put/read/Swap widths per kind, swap retags as Put; (C03.order) replay never appends to the buffer." + staticNote,
@@ -218,6 +228,7 @@ func init() {
 			ruleMarkerArms(r)
 			rulePool(r)
 			ruleRowDelete(r)
+			foundation(r)
 		}})
 	register(&PropSpec{ID: "C07",
 		Explanation: "Restore reproduces the collection — structural part. (C07.abs) offset-kind analysis of every Snapshot implementation, the state writer and PutBitmap: absolute offsets into the buffer, relative into per-block storage; (C07.count) the announced buffer count and the buffers written use one predicate; (C13.whole) readState applies each block through its own transaction and only when the block was read completely; (C11.markers) insert markers rebuild the fill list and the count; (U.defs) block arithmetic." + staticNote,
@@ -240,6 +251,7 @@ func init() {
 			ruleCommitUpdates(r)
 			ruleGrow(r)
 			ruleReplay(r)
+			foundation(r)
 		}})
 	register(&PropSpec{ID: "C08",
 		Explanation: "Snapshot under concurrent commits is a consistent cut — structural part. (L5.id) the commit id is drawn, stored and handed on while the block's exclusive latch is held (so per block id order = apply order for all schedules); (L5.emit) the recorder append and the recording test happen under that latch; (C08.read) the snapshot reads id, fill slice and columns of a block under the block latch and the collection mutex; (C08.order) recorder opened before the state is written, log copied after; (C08.replay) restore replays exactly the commits whose id is not below the block's stored id; (C02.isolation) the fill slice read contains only committed rows; (L4) commit-id table discipline." + staticNote,
@@ -260,6 +272,7 @@ func init() {
 			ruleCommitOrder(r, false, true)
 			ruleMarkerArms(r)
 			ruleL1(r, backfillExempt)
+			foundation(r)
 		}})
 	register(&PropSpec{ID: "C09",
 		Explanation: "Concurrent merges are never lost — structural part. (C01.arms …/Merge/rmw) in every Merge arm the old value is loaded from the element that is stored, merged with the delta read from the buffer, and swapped back into the buffer, inside one Apply body; (L1) every Apply runs under the block's exclusive latch on every call path, so the read-modify-write is atomic per block for all schedules; (C09.queue) every Merge accessor queues the delta and reads nothing." + staticNote,
@@ -271,6 +284,7 @@ func init() {
 			ruleMergeQueued(r)
 			ruleMergeReentrant(r)
 			ruleUnits(r, "C09.units", unitsText, 10, applyUnitFns("numeric", "string"))
+			foundation(r)
 		}})
 	register(&PropSpec{ID: "C10",
 		Explanation: "No half-applied commit visible on a row — static lock discipline. A closure-sensitive must-hold lockset analysis walks every call path from the exported API (SSA, CHA for interface calls, environment-resolved closures) and decides: (L1) every call that applies a commit to a registered column holds the block's exclusive latch; (L2) every client callback invoked after the cursor was positioned holds the block latch; (C10.shard) the shard locked is the block the critical section works on; (C10.single) markers and all column updates of a block are applied inside one critical section; (L0) lock operations are balanced and pair on the same shard. If these hold no interleaving can place a reader's callback between two column updates of one commit on the row's block." + staticNote,
@@ -283,6 +297,7 @@ func init() {
 			ruleShard(r)
 			ruleSingleSection(r)
 			ruleBlockLoops(r)
+			foundation(r)
 		}})
 	register(&PropSpec{ID: "C11",
 		Explanation: "Insert offsets never collide, reused offsets carry no stale data — structural part. (C11.reserve, L4) next() picks and marks the offset in one exclusive section, every fill-list access is under the collection mutex, the counter is atomic-only; (C11.markers) commitMarkers sets/clears fill bits per marker and recounts; (C03.rowdelete) row deletes reach every registry entry; (C01.arms, C03.arms) every kind's Delete arm clears presence / the index bit; (C11.order) updates are applied before markers; (C02.release) failing inserts and rollbacks release their offsets." + staticNote,
@@ -298,6 +313,7 @@ func init() {
 			ruleCommitOrder(r, true, false)
 			ruleRelease(r)
 			ruleUnits(r, "C11.units", unitsText, 5, anyOf(reserveFns, applyUnitFns("numeric", "string", "enum", "key", "bool", "index")))
+			foundation(r)
 		}})
 	register(&PropSpec{ID: "C12",
 		Explanation: "Primary keys behave like a map — structural part. (C12.arms) key column Apply maintains the lookup table: insert on Put with the stored value as key, removal of the row's previous key on overwrite, removal of the stored key on Delete; (C12.paths) guard structure of InsertKey/UpsertKey/QueryKey/DeleteKey/SetKey; (L6) table accessed under the key lock; (C12.atomic) existence test and insertion form one atomic step; (C11.order) a put+delete of one row leaves no table entry." + staticNote,
@@ -312,6 +328,7 @@ func init() {
 			ruleCommitOrder(r, true, false)
 			ruleUnits(r, "C12.units", unitsText, 4, anyOf(applyUnitFns("key"), fnsel("(*column.Txn).InsertKey", "(*column.Txn).UpsertKey", "(*column.Txn).QueryKey", "(*column.Txn).DeleteKey", "(column.Row).Key", "(column.Row).SetKey")))
 			ruleRowDelete(r)
+			foundation(r)
 		}})
 	register(&PropSpec{ID: "C13",
 		Explanation: "Truncated files never restore silently wrong state — structural skeleton only (the property is mostly about bytes and not applicable to static analysis). (C13.err) error-flow: no error of a read is discarded in Commit.ReadFrom, Buffer.ReadFrom, readChunksFrom, Log.Range, readState, Restore (one exception with reason); (C13.whole) the log callback runs only for completely decoded commits, a block commits only after all its buffers were read, the log is touched only after the state was read." + staticNote,
@@ -371,6 +388,7 @@ func init() {
 			ruleRegister(r)
 			ruleBackfill(r)
 			ruleRegistryLists(r)
+			foundation(r)
 		}})
 	register(&PropSpec{ID: "C17",
 		Explanation: "Rows expire only after their deadline — structural part only (all timing is not applicable). (C17.guard) edge-dominance in the cleanup: DeleteAt(row) only under ok ∧ now.After(deadline); ExpiresAt/TTL report a deadline only when stored and non-zero; selection With(expire); (C17.write) writers store now+ttl or 0, Extend is a queued merge; (C17.wiring) expire column created at construction, one cleanup goroutine with the configured interval that stops on close; (C09.queue) merge accessors queue deltas." + staticNote,
@@ -381,6 +399,7 @@ func init() {
 			ruleTTLNames(r)
 			ruleMergeQueued(r)
 			ruleUnits(r, "C17.units", unitsText, 1, fnsel("(*column.Collection).vacuum", "(*column.Txn).DeleteAt", "(column.rwTTL).", "(column.Row).SetTTL", "(column.Row).TTL"))
+			foundation(r)
 		}})
 	register(&PropSpec{ID: "C18",
 		Explanation: "Race/deadlock discipline. The lockset walk (see C10) decides for every call path: (L0) balance; (L1) column Apply under the exclusive latch, index back-fill included; (L2) positioned callbacks under the latch; (L3) every storage access reachable from an API root under the latch; (L4) fill list under the collection mutex, counter atomic-only, commit-id table under mutex/latch; (L6) key table and sorted index under their locks; (L7) cross-block column state is written only under a lock its readers take; (L8) the acquisition-order graph over all paths is acyclic with no re-acquisition and no latch-under-latch; (L9) the registry published through atomic.Value is never edited in place; (L.table) every field of every Column implementation is classified. Necessary conditions for race- and deadlock-freedom over all schedules; not sufficient (abstract locks, no alias analysis across functions, dependencies trusted)." + staticNote,
